@@ -38,7 +38,7 @@ def same_obs(impl, model):
     return False, False
 
 
-def run(pid, cmd, argv, trusted, known_classifiers):
+def run(pid, cmd, argv, trusted, known_classifiers, extra=None):
     """known_classifiers: finding id -> predicate(shrunk-record) (narrow classifier)."""
     c = Check(pid, argv)
     c.proofs()
@@ -220,7 +220,8 @@ def run(pid, cmd, argv, trusted, known_classifiers):
         c.violation({"kind": "the instruction listing of the real code generator differs from the Gallina generator model coq/Model/GenF0.v:gen "
                              "(the tie of theorem vm_refines_ref_F0 to generator.go is broken; this alone is not a failing input of the property)",
                      "count": len(listing_bad), "cases": listing_bad[:5]}, no_input=True, tag="gen")
-    if not violations and not panics:
+    extra_viol = extra(c, model_exe) if (extra and rc == 0) else 0
+    if not violations and not panics and not extra_viol:
         if c.proof_break:
             c.violation({"kind": "proof obligation / extraction no longer checks", "detail": c.proof_break}, no_input=True, tag="proof")
     c.coverage["property_failures"] = violations + len(panics)
